@@ -1246,7 +1246,13 @@ def _shrink_failures(pid, res, sess, rng, tier, t_end):
     by_sig = {}
     for s in res["spec"]:
         by_sig.setdefault(s["signature"], s)
-    out = []
+    try:
+        from common import findings
+        known = set(k["signature"] for k in findings.load() if k.get("status") == "open")
+    except Exception:  # noqa
+        known = set()
+    out = [s for sig, s in by_sig.items() if sig in known]      # pinned in the corpus already: no shrinking
+    by_sig = {sig: s for sig, s in by_sig.items() if sig not in known}
     n_shrunk = 0
     for sig, s in sorted(by_sig.items(), key=lambda kv: len(json.dumps(kv[1]["input"], default=str))):
         rec0 = s["input"].get("recipe")
